@@ -52,6 +52,10 @@ var pureExternalPkgs = map[string]bool{
 // pureExternalFuncs: individual external functions treated as side-effect free (they only read their arguments).
 var pureExternalFuncs = map[string]bool{
 	"encoding/json.Marshal": true, "encoding/json.MarshalIndent": true, "encoding/json.Valid": true,
+	// operating-system calls: assumed not to write Go memory reachable from the program
+	"os.OpenFile": true, "os.(*File).Stat": true, "os.(*File).Truncate": true, "os.(*File).Close": true, "os.(*File).Fd": true,
+	"os.(*File).Name": true, "os.Remove": true, "os.MkdirAll": true, "os.ReadDir": true, "io/fs.FileInfo.Size": true, "os.FileInfo.Size": true,
+	"io/fs.DirEntry.IsDir": true, "io/fs.DirEntry.Name": true, "os.(*File).Sync": true,
 	"sync/atomic.AddInt64": true, "sync/atomic.LoadInt64": true, "sync/atomic.AddInt32": true, "sync/atomic.LoadInt32": true,
 }
 
@@ -84,6 +88,10 @@ func (g *Gen) callCommon(in *ssa.Call, common *ssa.CallCommon, args []*SV, st *S
 				if a.LV == nil && a.Tup == nil {
 					env.vars[fmt.Sprintf("$%d", i)] = a
 				}
+			}
+			if ac.Apply {
+				g.applyLemma(ac, env, reach)
+				continue
 			}
 			s := g.mustEval(ac.Clause, env)
 			lab := ac.Clause.Label
@@ -392,6 +400,41 @@ func (g *Gen) contractCall(in *ssa.Call, con *Contract, callee *ssa.Function, co
 			g.vals[in] = &SV{T: in.Type(), Tup: results}
 		}
 	}
+}
+
+// applyLemma assumes one instance of a lemma (proved as its own obligation unless marked assumed).
+func (g *Gen) applyLemma(ac *AtCall, env *Env, reach string) {
+	call := ac.Clause.E.(*ECall)
+	for _, lm := range g.cs.Lemmas {
+		if lm.Name != call.Fun {
+			continue
+		}
+		q, ok := lm.Clause.E.(*EQuant)
+		if !ok || !q.Forall || len(q.Vars) != len(call.Args) {
+			panic(bindError{fmt.Sprintf("apply-at-call %s: lemma must be forall over %d variables", lm.Name, len(call.Args))})
+		}
+		covered := false
+		for _, p := range g.con.Props {
+			if containsStr(lm.Props, p) {
+				covered = true
+			}
+		}
+		if !covered {
+			panic(bindError{"apply-at-call " + lm.Name + ": lemma is not checked under the properties of this contract"})
+		}
+		sub := map[string]Expr{}
+		for i, v := range q.Vars {
+			sub[v.Name] = call.Args[i]
+		}
+		inst := &Clause{E: substExpr(q.Body, sub), Src: ac.Clause.Src, File: ac.Clause.File, Line: ac.Clause.Line}
+		s := g.mustEval(inst, env)
+		g.addFact(implies(reach, s))
+		if lm.Assumed {
+			g.trusted["assumed lemma "+lm.Name] = true
+		}
+		return
+	}
+	panic(bindError{"apply-at-call: unknown lemma " + call.Fun})
 }
 
 func refLike(t types.Type) bool {
